@@ -581,7 +581,10 @@ def handlePreserve (j : Json) : Option Json := do
   let fromNames := ((field? j "from_names") >>= strList?).getD []
   let star := (field? j "star") == some (Json.bool true)
   let allNames := ((field? j "all_names") >>= strList?).getD []
+  let uRead := (field? j "underscore_read") == some (Json.bool true)
+  let cls := (field? j "cls") >>= getStr?
   some (Json.mkObj [
+    ("keeps_underscore", Json.bool (Preserve.keepsUnderscore pres uRead cls)),
     ("safe", Json.arr ((Preserve.safeSet ⟨defs, cms, assigns, cas⟩ pres).map Json.str).toArray),
     ("file_preserve", Json.arr ((Preserve.filePreserve used ns).map Json.str).toArray),
     ("used_names", Json.arr ((Preserve.usedNames ⟨imported, loads, attrs, fromNames, star, allNames⟩).map Json.str).toArray)])
